@@ -170,7 +170,7 @@ theorem Wrote.setLater {d d' d'' : Ini} {L N} {s k v : Str} {o : IniSec} (w : Wr
 
 def baseOpts (pu : Option Str) (id uid name type : Str) (paths : List (Str × Str)) : IniSec :=
   setsKV (setsKV [] [(kId, id), (kUid, uid), (kName, name), (kType, type)])
-    (pathOpts paths ++ match pu with | some p => [(kParent, p)] | none => [])
+    (pathOpts paths ++ parentOpt pu)
 
 /-- the final options of a variant's own section -/
 def varOpts (pu : Option Str) : Variant → IniSec
@@ -525,6 +525,7 @@ structure Written (t : TreeInfo) (mv : Option Str) (d : Ini) (n : Int) (key : St
   look : ∀ s, d.lookup s = (docList t (generalOpts t n key chosen)).lookup s
   nodup : ((docList t (generalOpts t n key chosen)).map (·.1)).Nodup
   length : d.length = (docList t (generalOpts t n key chosen)).length
+  names : (d.map (·.1)).Perm ((docList t (generalOpts t n key chosen)).map (·.1))
   layered : t.isLayered = true → t.baseProduct.isSome
   media : mediaOn t.discnum t.totaldiscs = true → t.discnum.isSome ∧ t.totaldiscs.isSome
 
@@ -573,9 +574,13 @@ theorem serialize_spec {t : TreeInfo} {mv : Option Str} {d : Ini} (h : serialize
   have hm := serMedia_spec h9
   obtain ⟨n, key, chosen, hn, hkey, hchosen, wg⟩ := serGeneral_spec h
   have wall := (((((w4set.trans w5).trans w6).trans w7).trans w8).trans hm.1).trans wg
-  refine ⟨n, key, chosen, hn, hkey, hchosen, ?_, wall.nodup, ?_, hb.2, hm.2⟩
+  refine ⟨n, key, chosen, hn, hkey, hchosen, ?_, wall.nodup, ?_, ?_, hb.2, hm.2⟩
   · intro s
     rw [wall.look]; simp [docList]
+  rotate_left
+  · have := wall.names
+    simp only [List.map_nil, List.nil_append] at this
+    rw [this]; exact wall.perm
   · have := congrArg List.length wall.names
     simp only [List.map_nil, List.nil_append, List.length_map] at this
     rw [this, wall.perm.length_eq, List.length_map]; rfl
